@@ -1605,11 +1605,11 @@ int EGLPNUM_TYPENAME_ILLlib_delrows (
 				bok = 0;
 				break;
 			}
-			if (C && EGLPNUM_TYPENAME_EGlpNumIsLess (EGLPNUM_TYPENAME_DFEAS_TOLER, C->pi[j]))
+			/* the stored solution survives only if the deleted rows carry no dual
+			 * value in it, whatever its sign (the stored basis need not be the one
+			 * the solution came from, e.g. after a pivot-in) */
+			if (C && EGLPNUM_TYPENAME_EGlpNumIsNeqZero (C->pi[j], EGLPNUM_TYPENAME_DFEAS_TOLER))
 			{
-/*
-                QSlog("XXXX: Postive pi (%f) at basic row", C->pi[j]);
-*/
 				cok = 0;
 			}
 		}
